@@ -1480,3 +1480,120 @@ func (f *FuncCFG) AtomCall(e ast.Expr, pt Point) (*ast.CallExpr, int) {
 	}
 	return nil, 0
 }
+
+// ReturnsUnder enumerates, for one truth assignment of named atomic conditions, the result keys
+// of the return statements reachable from the entry when every branch whose condition is
+// decided by the assignment takes only the decided side (undecided branches take both). It is a
+// finite case split over boolean atoms - the way to judge a guard such as `a || b && c` whose
+// short-circuit structure go/cfg does not expose - independent of how the guard is spelled
+// (one condition, nested ifs, a switch).
+func (f *FuncCFG) ReturnsUnder(assign map[string]bool) map[string]bool {
+	var eval func(e ast.Expr) (val, known bool)
+	eval = func(e ast.Expr) (bool, bool) {
+		e = ast.Unparen(e)
+		if under, ok := astSubst[e]; ok {
+			return eval(under)
+		}
+		switch x := e.(type) {
+		case *ast.UnaryExpr:
+			if x.Op == token.NOT {
+				v, k := eval(x.X)
+				return !v, k
+			}
+		case *ast.BinaryExpr:
+			switch x.Op {
+			case token.LAND:
+				a, ka := eval(x.X)
+				b, kb := eval(x.Y)
+				switch {
+				case ka && !a, kb && !b:
+					return false, true
+				case ka && kb:
+					return a && b, true
+				}
+				return false, false
+			case token.LOR:
+				a, ka := eval(x.X)
+				b, kb := eval(x.Y)
+				switch {
+				case ka && a, kb && b:
+					return true, true
+				case ka && kb:
+					return a || b, true
+				}
+				return false, false
+			}
+			if rel, ok := relOf(x); ok {
+				for k, v := range assign {
+					if k == rel.String() {
+						return v, true
+					}
+					if k == negRel(rel).String() {
+						return !v, true
+					}
+				}
+			}
+		}
+		if v, ok := assign[exprKey(e)]; ok {
+			return v, true
+		}
+		return false, false
+	}
+	out := map[string]bool{}
+	seen := map[*cfg.Block]bool{}
+	var walk func(b *cfg.Block)
+	walk = func(b *cfg.Block) {
+		if seen[b] || !b.Live {
+			return
+		}
+		seen[b] = true
+		for _, n := range b.Nodes {
+			if rs, ok := n.(*ast.ReturnStmt); ok {
+				var ks []string
+				for _, res := range rs.Results {
+					ks = append(ks, exprKey(res))
+				}
+				out[strings.Join(ks, ",")] = true
+			}
+		}
+		c := condOf(b)
+		if c != nil {
+			if tag, ok := caseTagOf[c]; ok {
+				c = &ast.BinaryExpr{X: tag, Op: token.EQL, Y: c}
+			}
+			if v, known := eval(c); known {
+				if v {
+					walk(b.Succs[0])
+				} else {
+					walk(b.Succs[1])
+				}
+				return
+			}
+		}
+		for _, sc := range b.Succs {
+			walk(sc)
+		}
+	}
+	walk(f.G.Blocks[0])
+	return out
+}
+
+// IsVar: does e (evaluated at pt) denote the variable v - directly, or as a parameter of an
+// expanded helper that received v?
+func (f *FuncCFG) IsVar(e ast.Expr, pt Point, v types.Object) bool {
+	for steps := 0; steps < 8; steps++ {
+		o := objOfIdent(f.Info, e)
+		if o == nil {
+			return false
+		}
+		if o == v {
+			return true
+		}
+		arg, cpt, ok := f.paramArg(o, pt)
+		if !ok {
+			return false
+		}
+		e, pt = arg, cpt
+	}
+	return false
+}
